@@ -132,3 +132,23 @@ func Ite64(c bool, a, b uint64) uint64 {
 func AllocLimit(f func(n int64)) {}
 
 func SetClock(ns int64) {}
+
+// TempDir returns a fresh data directory ("/data" in the file-system model).
+func TempDir() string {
+	d, err := os.MkdirTemp("", "verif-")
+	if err != nil {
+		panic(err)
+	}
+	tempDirs = append(tempDirs, d)
+	return d
+}
+
+var tempDirs []string
+
+// CleanupTempDirs removes directories handed out by TempDir (native only).
+func CleanupTempDirs() {
+	for _, d := range tempDirs {
+		os.RemoveAll(d)
+	}
+	tempDirs = nil
+}
